@@ -431,6 +431,9 @@ func genPolicy(rng *rand.Rand, c *Cluster, name string) Policy {
 	case r < 0.6:
 		p.Types = []string{"Ingress"}
 		p.Ingress = genRules(rng, 2)
+		if rng.Float64() < 0.1 {
+			p.Egress = genRules(rng, 2) // listed but not in force
+		}
 	case r < 0.8:
 		p.Types = []string{"Egress"}
 		p.Egress = genRules(rng, 2)
